@@ -101,6 +101,118 @@ def snapshot_arg(val):
     return world._strict(val)
 
 
+def rx_hi_id(ids, val):
+    """id of the UPPER range bound (the documented don't-care of C12 is the
+    lower bound: min of the pair)"""
+    try:
+        if len(val) != 2:
+            return "none"
+        hi = max(float(val[0]), float(val[1]))
+        return ids(("rxhi", world._norm(hi)))
+    except (TypeError, IndexError, ValueError):
+        return "none"
+
+
+def observe_state(idnt, raw0):
+    """Picklable observation of everything the projection needs (taken
+    right after a call; classification against the oracle can happen later,
+    in another process)."""
+    fp = idnt.fit_properties
+    obs = {
+        "settings": {k: copy.deepcopy(fp[k]) for k in world.SETTING_KEYS
+                     if k in fp},
+        "pipe_attr": (copy.deepcopy(list(idnt.preprocessing)),
+                      copy.deepcopy(dict(idnt.preprocessing_options))),
+        "pipe_fp": None,
+        "data": orc.data_digest(idnt),
+        "rawok": bool(orc.raw_digest(idnt) == raw0),
+        "hash": fp.get("hash"),
+        "result": orc.result_snapshot(idnt) if "hash" in fp else None,
+        "scalars": [k for k in SCALAR_RESULTS if k in fp],
+        "success": bool(fp.get("success", False)),
+        "edelta": bool(fp.get("optimal_fit_edelta", False)),
+        "scan": {k: digest(np.asarray(fp[k], float))
+                 for k in orc.RES_ARRAYS if k in fp},
+        "short": bool(int(np.sum(np.asarray(idnt["segment"]) == 0)) < 600),
+        "xy": None,
+    }
+    if "preprocessing" in fp or "preprocessing_options" in fp:
+        obs["pipe_fp"] = (copy.deepcopy(list(fp.get("preprocessing", []))),
+                          copy.deepcopy(dict(fp.get("preprocessing_options",
+                                                    {}))))
+    xa = fp.get("x_axis", "tip position")
+    ya = fp.get("y_axis", "force")
+    if xa in idnt and ya in idnt:
+        obs["xy"] = digest(np.asarray(idnt[xa]), np.asarray(idnt[ya]))
+    return obs
+
+
+def classify_state(obs, cid, oracle, ids):
+    """observation -> abstract state of CurveClauses.tla (oracle lookups)"""
+    def vid(kind, normval):
+        return ids((kind, normval))
+
+    def pipe_id(steps, opts):
+        return vid("pipe", (world._norm(list(steps)), world._norm(dict(opts))))
+    sett = obs["settings"]
+    st = {}
+    st["sett"] = {k: (vid(k, world.norm(k, sett[k])) if k in sett
+                      else "unset") for k in world.SETTING_KEYS}
+    st["pipe"] = pipe_id(*obs["pipe_attr"])
+    st["pipe_fp"] = pipe_id(*obs["pipe_fp"]) if obs["pipe_fp"] else "unset"
+    st["data"] = ids(("data", obs["data"]))
+    st["rawok"] = obs["rawok"]
+    pipe = obs["pipe_fp"] if obs["pipe_fp"] else obs["pipe_attr"]
+    st["hash"] = "none"
+    st["why"] = ""
+    edelta = obs["edelta"]
+    if obs["hash"] is not None:
+        st["hash"] = ids(("hash", obs["hash"]))
+        mine = dict(obs["result"])
+        ref = oracle.fit(cid, pipe, sett)
+        if isinstance(ref, tuple):
+            st["res"] = "stale"
+            st["why"] = f"fresh copy raises {ref[1]}"
+        else:
+            if not edelta:
+                # scan arrays are not fit results unless the plateau search
+                # is on; their currency is judged under `scan`
+                mine = {k: v for k, v in mine.items()
+                        if k not in orc.RES_ARRAYS}
+                ref = {k: v for k, v in ref.items()
+                       if k not in orc.RES_ARRAYS}
+            diff = orc.first_difference(mine, ref)
+            if diff is None:
+                st["res"] = "cur"
+            else:
+                st["res"] = "stale"
+                st["why"] = f"field {diff} differs from fresh copy"
+        st["success"] = obs["success"]
+    elif obs["scalars"]:
+        st["res"] = "partial"
+        st["why"] = "result keys without hash: " + ",".join(obs["scalars"])
+        st["success"] = False
+    else:
+        st["res"] = "none"
+        st["success"] = False
+    if obs["scan"] and obs["hash"] is not None and edelta:
+        st["scan"] = "withfit"
+    elif obs["scan"]:
+        ref = oracle.scan(cid, pipe, sett)
+        st["scan"] = "cur" if obs["scan"] == ref else "stale"
+    else:
+        st["scan"] = "none"
+    rx = sett.get("range_x", None)
+    st["rx_hi"] = rx_hi_id(ids, rx) if rx is not None else "unset"
+    if st["rx_hi"] == "none":
+        st["rx_hi"] = "unset"
+    st["xy"] = ids(("xy", obs["xy"])) if obs["xy"] else "none"
+    st["edelta"] = edelta
+    st["pipe_eff"] = st["pipe_fp"]
+    st["short"] = obs["short"]
+    return st
+
+
 # --------------------------------------------------------------------------
 class Executor:
     def __init__(self, cid, oracle, interner=None, raters=None,
@@ -141,83 +253,11 @@ class Executor:
 
     # ------------------------------------------------------------ project
     def project(self):
-        idnt = self.idnt
-        fp = idnt.fit_properties
-        st = {}
-        st["sett"] = {k: (self.vid(k, world.norm(k, fp[k]))
-                          if k in fp else "unset")
-                      for k in world.SETTING_KEYS}
-        rep = self.pipe_id(idnt.preprocessing, idnt.preprocessing_options)
-        st["pipe"] = rep
-        if "preprocessing" in fp or "preprocessing_options" in fp:
-            st["pipe_fp"] = self.pipe_id(
-                fp.get("preprocessing", []),
-                fp.get("preprocessing_options", {}))
-        else:
-            st["pipe_fp"] = "unset"
-        st["data"] = self.ids(("data", orc.data_digest(idnt)))
-        st["rawok"] = bool(orc.raw_digest(idnt) == self.raw0)
-        pipe = self.stored_pipeline()
-        sett = self.stored_settings()
-        scalars = [k for k in SCALAR_RESULTS if k in fp]
-        st["hash"] = "none"
-        st["why"] = ""
-        edelta = bool(fp.get("optimal_fit_edelta", False))
-        if "hash" in fp:
-            st["hash"] = self.ids(("hash", fp["hash"]))
-            mine = orc.result_snapshot(idnt)
-            ref = self.oracle.fit(self.cid, pipe, sett)
-            if isinstance(ref, tuple):
-                st["res"] = "stale"
-                st["why"] = f"fresh copy raises {ref[1]}"
-            else:
-                if not edelta:
-                    # scan arrays are not fit results unless the plateau
-                    # search is on; their currency is judged under `scan`
-                    mine = {k: v for k, v in mine.items()
-                            if k not in orc.RES_ARRAYS}
-                    ref = {k: v for k, v in ref.items()
-                           if k not in orc.RES_ARRAYS}
-                diff = orc.first_difference(mine, ref)
-                if diff is None:
-                    st["res"] = "cur"
-                else:
-                    st["res"] = "stale"
-                    st["why"] = f"field {diff} differs from fresh copy"
-            st["success"] = bool(fp.get("success", False))
-        elif scalars:
-            st["res"] = "partial"
-            st["why"] = "result keys without hash: " + ",".join(scalars)
-            st["success"] = False
-        else:
-            st["res"] = "none"
-            st["success"] = False
-        # scan arrays
-        if "optimal_fit_E_array" in fp and "hash" in fp and edelta:
-            st["scan"] = "withfit"
-        elif "optimal_fit_E_array" in fp:
-            ref = self.oracle.scan(self.cid, pipe, sett)
-            mine = {k: digest(np.asarray(fp[k], float))
-                    for k in orc.RES_ARRAYS if k in fp}
-            st["scan"] = "cur" if mine == ref else "stale"
-        else:
-            st["scan"] = "none"
-        # effective-settings tuple ingredients for C12 (don't-care removal
-        # is done in TLA+): per-key norm ids + upper range bound id
-        effk = dict(st["sett"])
-        rx = fp.get("range_x", None)
-        st["rx_hi"] = self._rxhi(rx) if rx is not None else "unset"
-        if st["rx_hi"] == "none":
-            st["rx_hi"] = "unset"
-        xa = fp.get("x_axis", "tip position")
-        ya = fp.get("y_axis", "force")
-        st["xy"] = self.ids(("xy", digest(np.asarray(idnt[xa]),
-                                          np.asarray(idnt[ya])))) \
-            if xa in idnt and ya in idnt else "none"
-        st["edelta"] = bool(fp.get("optimal_fit_edelta", False))
-        st["pipe_eff"] = st["pipe_fp"]
-        st["short"] = self.short
-        return st
+        obs = observe_state(self.idnt, self.raw0)
+        return classify_state(obs, self.cid, self.oracle, self.ids)
+
+    def _rxhi(self, val):
+        return rx_hi_id(self.ids, val)
 
     # ------------------------------------------------------------ ops
     def run(self, ops):
@@ -349,17 +389,6 @@ class Executor:
         ev["streq"] = bool(key in fp and
                            world.strict(key, fp[key]) == world.strict(key, val))
         return nv
-
-    def _rxhi(self, val):
-        """the UPPER range bound (the documented don't-care of C12 is the
-        lower bound: min of the pair)"""
-        try:
-            if len(val) != 2:
-                return "none"
-            hi = max(float(val[0]), float(val[1]))
-            return self.vid("rxhi", world._norm(hi))
-        except (TypeError, IndexError, ValueError):
-            return "none"
 
     def op_set(self, op, ev, args, pre):
         key = op["key"]
